@@ -1,27 +1,38 @@
-From Coq Require Import List NArith Bool Lia.
-From WX Require Import Cli.OnBusy.
+From Coq Require Import List NArith Bool String Lia.
+From WX Require Import Gen.CliOnBusy_gen Cli.OnBusy Cli.OnBusyTable.
 Import ListNotations.
 Open Scope N_scope.
 
+Lemma table_shape : T = mkTab [KSignal] [KRestart; KNoop] [KNoop; KWaitEnd; KStart; KNoop] [] [KStart; KNoop].
+Proof. reflexivity. Qed.
+Lemma shorthands_shape : onbusy_shorthands = ("Signal", "Restart")%string /\ onbusy_default = "do-nothing"%string /\
+                         onbusy_signal_expr = "signal.or(stop_signal).unwrap_or(Signal::Terminate)"%string.
+Proof. repeat split. Qed.
+
+Notation step := (OnBusy.step T).
+Notation run := (OnBusy.run T).
+Notation boot := (OnBusy.boot T).
+
 (* start-up *)
 Lemma startup_runs o : o_postpone o = false -> running (boot o) = true /\ log (boot o) = [AStart; AChange].
-Proof. intro H. unfold boot. rewrite H. split; reflexivity. Qed.
+Proof. intro H. unfold OnBusy.boot. rewrite H. split; reflexivity. Qed.
 Lemma postpone_waits o : o_postpone o = true -> boot o = st0.
-Proof. intro H. unfold boot. rewrite H. reflexivity. Qed.
+Proof. intro H. unfold OnBusy.boot. rewrite H. reflexivity. Qed.
 
 (* a change while idle starts the command, in every mode *)
-Lemma idle_change_starts o s : running s = false -> running (step o s Change) = true /\ log (step o s Change) = AStart :: AChange :: log s.
-Proof. intro H. unfold step. rewrite H. split; reflexivity. Qed.
+Lemma idle_change_starts o s r : running s = false ->
+  running (step o s (Change r)) = true /\ log (step o s (Change r)) = AStart :: AChange :: log s.
+Proof. intro H. unfold OnBusy.step, do_exit. cbn [running]. rewrite H. destruct r; split; reflexivity. Qed.
 
 (* do-nothing: a change while running has no effect on the command *)
 Lemma do_nothing o s : eff_mode o = MDoNothing -> running s = true ->
-  log (step o s Change) = AChange :: log s /\ running (step o s Change) = true /\ queued (step o s Change) = queued s.
-Proof. intros M R. unfold step. rewrite R, M. repeat split; reflexivity. Qed.
+  log (step o s (Change false)) = AChange :: log s /\ running (step o s (Change false)) = true /\ deferred (step o s (Change false)) = deferred s.
+Proof. intros M R. unfold OnBusy.step. rewrite R, M. repeat split; exact R. Qed.
 
 (* signal: exactly the configured signal, nothing else *)
 Lemma signal_only o s : eff_mode o = MSignal -> running s = true ->
-  log (step o s Change) = ASignal (busy_signal o) :: AChange :: log s /\ running (step o s Change) = true.
-Proof. intros M R. unfold step. rewrite R, M. split; reflexivity. Qed.
+  log (step o s (Change false)) = ASignal (busy_signal o) :: AChange :: log s /\ running (step o s (Change false)) = true.
+Proof. intros M R. unfold OnBusy.step. rewrite R, M. cbn. rewrite ?R. split; reflexivity. Qed.
 
 Lemma busy_signal_precedence o s : o_signal o = Some s -> busy_signal o = s.
 Proof. intro H. unfold busy_signal. rewrite H. reflexivity. Qed.
@@ -32,66 +43,101 @@ Proof. intros H R. unfold eff_mode. rewrite H, R. reflexivity. Qed.
 
 (* restart: stop with the stop signal, then one fresh start *)
 Lemma restart_restarts o s : eff_mode o = MRestart -> running s = true ->
-  log (step o s Change) = AStopStart (stop_sig o) :: AChange :: log s /\ running (step o s Change) = true /\ pending (step o s Change) = false.
-Proof. intros M R. unfold step. rewrite R, M. repeat split; reflexivity. Qed.
+  log (step o s (Change false)) = AStopStart (stop_sig o) :: AChange :: log s /\ running (step o s (Change false)) = true /\ pending (step o s (Change false)) = false.
+Proof. intros M R. unfold OnBusy.step. rewrite R, M. cbn. rewrite ?R. repeat split; reflexivity. Qed.
+
+(* ... and when the command ends just before the restart is processed, it is started all the same *)
+Lemma restart_raced o s : eff_mode o = MRestart -> running s = true -> deferred s = None ->
+  log (step o s (Change true)) = AStart :: AExit :: AChange :: log s /\ running (step o s (Change true)) = true /\ pending (step o s (Change true)) = false.
+Proof. intros M R D. unfold OnBusy.step, do_exit. rewrite R, M. cbn. rewrite ?R, ?D. cbn. repeat split; reflexivity. Qed.
 
 (* queue: any number of changes during one run cause exactly one further run, started when it ends *)
+Lemma queue_first_change o s : eff_mode o = MQueue -> running s = true -> deferred s = None ->
+  step o s (Change false) = mkSt true (Some [KStart; KNoop]) true (AChange :: log s).
+Proof. intros M R D. unfold OnBusy.step, queued. rewrite R, M, D. cbn. reflexivity. Qed.
+Lemma queue_more_changes o s cs : eff_mode o = MQueue -> running s = true -> deferred s = Some cs ->
+  step o s (Change false) = mkSt true (Some cs) true (AChange :: log s).
+Proof. intros M R D. unfold OnBusy.step, queued. rewrite R, M, D. cbn. rewrite ?R, ?D. reflexivity. Qed.
+
 Lemma queue_changes_only_mark o s n :
-  eff_mode o = MQueue -> running s = true ->
-  let s' := fold_left (step o) (repeat Change n) s in
-  running s' = true /\ starts s' = starts s /\ (n <> 0%nat -> queued s' = true) /\ (n = 0%nat -> queued s' = queued s).
+  eff_mode o = MQueue -> running s = true -> (deferred s = None \/ deferred s = Some [KStart; KNoop]) ->
+  let s' := fold_left (step o) (repeat (Change false) n) s in
+  running s' = true /\ starts s' = starts s /\ (n <> 0%nat -> deferred s' = Some [KStart; KNoop]) /\ (n = 0%nat -> deferred s' = deferred s).
 Proof.
-  intros M R. revert s R. induction n as [|n IH]; intros s R; cbn [repeat fold_left].
+  intros M. revert s. induction n as [|n IH]; intros s R D; cbn [repeat fold_left].
   - repeat split; try reflexivity; try assumption. intro H; contradiction.
-  - assert (step o s Change = mkSt true true true (AChange :: log s)) as E by (unfold step; rewrite R, M; reflexivity).
-    rewrite E. destruct (IH (mkSt true true true (AChange :: log s)) eq_refl) as (A & B & C & D).
+  - assert (step o s (Change false) = mkSt true (Some [KStart; KNoop]) true (AChange :: log s)) as E.
+    { destruct D as [D|D]; [apply queue_first_change; assumption | rewrite (queue_more_changes o s _ M R D); reflexivity]. }
+    rewrite E. destruct (IH (mkSt true (Some [KStart; KNoop]) true (AChange :: log s)) eq_refl (or_intror eq_refl)) as (A & B & C & D').
     split; [exact A|]. split; [rewrite B; reflexivity|]. split; [|intro H; discriminate].
-    intros _. destruct n; [rewrite (D eq_refl); reflexivity | apply C; discriminate].
+    intros _. destruct n; [rewrite (D' eq_refl); reflexivity | apply C; discriminate].
 Qed.
 
 Theorem queue_once o s n :
-  eff_mode o = MQueue -> running s = true -> n <> 0%nat ->
-  let s' := step o (fold_left (step o) (repeat Change n) s) Exit in
-  running s' = true /\ starts s' = S (starts s) /\ queued s' = false /\ pending s' = false.
+  eff_mode o = MQueue -> running s = true -> deferred s = None -> n <> 0%nat ->
+  let s' := step o (fold_left (step o) (repeat (Change false) n) s) Exit in
+  running s' = true /\ starts s' = S (starts s) /\ deferred s' = None /\ pending s' = false.
 Proof.
-  intros M R N. destruct (queue_changes_only_mark o s n M R) as (A & B & C & _). specialize (C N). cbn zeta.
-  set (s1 := fold_left (step o) (repeat Change n) s) in *. unfold step. rewrite A, C.
-  unfold start, starts in *. cbn [running queued pending log filter is_start List.length]. rewrite B. repeat split; reflexivity.
+  intros M R D N. destruct (queue_changes_only_mark o s n M R (or_introl D)) as (A & B & C & _). specialize (C N). cbn zeta.
+  set (s1 := fold_left (step o) (repeat (Change false) n) s) in *. unfold OnBusy.step, do_exit. rewrite A, C.
+  cbn. unfold starts in *. cbn [log filter is_start List.length]. rewrite B. repeat split; reflexivity.
 Qed.
 
-(* freshness, restart mode: after every event no change is left that was not followed by a start *)
+(* invariant shared by the freshness theorems: the helper only ever waits to start the command *)
+Definition DefOk (s : st) : Prop := deferred s = None \/ (deferred s = Some [KStart; KNoop] /\ running s = true).
+
+(* freshness, restart mode: after every event -- including a command that ends at the moment of the decision -- no change
+   is left that was not followed by a start *)
 Theorem restart_fresh o es : eff_mode o = MRestart -> pending (run o es) = false.
 Proof.
-  intro M. unfold run.
-  assert (pending (boot o) = false) as B by (unfold boot; destruct (o_postpone o); reflexivity).
-  revert B. generalize (boot o). induction es as [|e r IH]; intros s P; simpl; [exact P|]. apply IH.
-  destruct e; unfold step.
-  - destruct (running s); [rewrite M; reflexivity | reflexivity].
-  - destruct (running s); [|exact P]. destruct (queued s); [reflexivity | exact P].
+  intro M. unfold OnBusy.run.
+  assert (pending (boot o) = false /\ deferred (boot o) = None) as B by (unfold OnBusy.boot; destruct (o_postpone o); split; reflexivity).
+  revert B. generalize (boot o). induction es as [|e r IH]; intros s [P D]; cbn [fold_left]; [exact P|]. apply IH.
+  destruct e as [rc|]; unfold OnBusy.step, do_exit.
+  - cbn [running deferred pending log]. destruct (running s) eqn:R; rewrite ?M.
+    + destruct rc; cbn; rewrite ?R, ?D; cbn; split; reflexivity || exact D.
+    + destruct rc; cbn; rewrite ?R, ?D; cbn; split; reflexivity || exact D.
+  - destruct (running s); [rewrite D; split; [exact P | reflexivity] | split; assumption].
 Qed.
 
-(* freshness, queue mode: a change not yet followed by a start means the command is running and the next
-   run is queued; as soon as the current run ends the queued run starts (queue_once) *)
+(* freshness, queue mode: a change not yet followed by a start means the command is running and its next run is queued;
+   as soon as the current run ends the queued run starts (queue_once) *)
 Theorem queue_fresh o es :
-  eff_mode o = MQueue -> let s := run o es in pending s = true -> running s = true /\ queued s = true.
+  eff_mode o = MQueue -> let s := run o es in pending s = true -> running s = true /\ deferred s = Some [KStart; KNoop].
 Proof.
-  intro M. unfold run.
-  assert (pending (boot o) = true -> running (boot o) = true /\ queued (boot o) = true) as B
-    by (unfold boot; destruct (o_postpone o); cbn; intro H; discriminate).
-  revert B. generalize (boot o). induction es as [|e r IH]; intros s P; simpl; [exact P|]. apply IH.
-  destruct e; unfold step.
-  - destruct (running s) eqn:R; [rewrite M; cbn; intros _; split; reflexivity | cbn; intro H; discriminate].
-  - destruct (running s) eqn:R; [|rewrite R; exact P]. destruct (queued s) eqn:Q; cbn; [intro H; discriminate|].
-    intro H. destruct (P H) as [_ X]. discriminate.
+  intro M. unfold OnBusy.run.
+  assert ((pending (boot o) = true -> running (boot o) = true /\ deferred (boot o) = Some [KStart; KNoop]) /\ DefOk (boot o)) as B
+    by (unfold OnBusy.boot, DefOk; destruct (o_postpone o); cbn; split; [intro H; discriminate | left; reflexivity | intro H; discriminate | left; reflexivity]).
+  revert B. generalize (boot o).
+  induction es as [|e r IH]; intros s [P D]; cbn [fold_left]; [exact P|]. apply IH. clear IH.
+  assert (forall (p r : bool) (d : option (list call)) (X : st),
+            pending X = p -> running X = r -> deferred X = d ->
+            (r = true /\ d = Some [KStart; KNoop]) \/ (p = false /\ d = None) ->
+            (pending X = true -> running X = true /\ deferred X = Some [KStart; KNoop]) /\ DefOk X) as Fin.
+  { intros p0 r0 d0 X <- <- <- [[A B]|[A B]]; (split; [intro H; try (split; assumption); rewrite A in H; discriminate|]); unfold DefOk;
+      [right; split; assumption | left; exact B]. }
+  unfold DefOk in D. destruct e as [rc|]; unfold OnBusy.step, do_exit, queued.
+  - cbn [running deferred pending log]. destruct (running s) eqn:R.
+    + rewrite M. destruct D as [D|[D _]]; rewrite D; destruct rc;
+        (eapply Fin; [reflexivity | reflexivity | reflexivity | cbn; tauto]).
+    + destruct D as [D|[_ D]]; [|discriminate]. destruct rc; (eapply Fin; [reflexivity | reflexivity | reflexivity | cbn; rewrite ?R, ?D; cbn; tauto]).
+  - destruct (running s) eqn:R.
+    + destruct D as [D|[D _]]; rewrite D; (eapply Fin; [reflexivity | reflexivity | reflexivity | cbn]); [|tauto].
+      destruct (pending s) eqn:Pd; [|tauto]. destruct (P eq_refl) as [_ X]. rewrite D in X. discriminate.
+    + split; [rewrite R; exact P | unfold DefOk; rewrite R; exact D].
 Qed.
 
 (* runs are sequential: a plain start only ever happens while nothing is running *)
-Theorem starts_only_when_idle o s e : In AStart (log (step o s e)) -> ~ In AStart (log s) ->
-  (e = Change /\ running s = false) \/ (e = Exit /\ running s = true /\ queued s = true).
+Theorem starts_only_when_idle o s e : DefOk s -> In AStart (log (step o s e)) -> ~ In AStart (log s) ->
+  (exists r, e = Change r /\ (running s = false \/ r = true)) \/ (e = Exit /\ running s = true /\ deferred s <> None).
 Proof.
-  destruct e; unfold step; intros H N.
-  - destruct (running s) eqn:R; [|left; split; reflexivity].
-    exfalso. destruct (eff_mode o); cbn in H; repeat (destruct H as [H|H]; try discriminate); apply N; exact H.
-  - destruct (running s) eqn:R; [|contradiction]. destruct (queued s) eqn:Q; [right; repeat split; reflexivity|].
-    exfalso. cbn in H. destruct H as [H|H]; [discriminate | contradiction].
+  intros D H N. destruct e as [rc|].
+  - left. exists rc. split; [reflexivity|]. destruct (running s) eqn:R; [|left; reflexivity]. destruct rc; [right; reflexivity|]. exfalso.
+    unfold OnBusy.step, queued in H. rewrite ?R in H. destruct (eff_mode o); cbn in H.
+    + destruct H as [H|H]; [discriminate | contradiction].
+    + destruct D as [D|[D _]]; rewrite D in H; cbn in H; rewrite ?R in H; cbn in H; destruct H as [H|H]; try discriminate; contradiction.
+    + rewrite ?R in H. cbn in H. destruct H as [H|[H|H]]; try discriminate; contradiction.
+    + rewrite ?R in H. cbn in H. destruct H as [H|[H|H]]; try discriminate; contradiction.
+  - right. unfold OnBusy.step, do_exit in H. destruct (running s) eqn:R; [|contradiction].
+    destruct (deferred s) eqn:Df; [repeat split; discriminate|]. exfalso. cbn in H. destruct H as [H|H]; [discriminate | contradiction].
 Qed.
